@@ -192,4 +192,53 @@ example : (pollN lenCodec 1 (rinit [.data [5, 97, 10], .pending])).1 = [.pending
     (pollN linesCodec 3 (pollN lenCodec 1 (rinit [.data [5, 97, 10], .pending])).2).1 =
       [.item [5, 97], .none, .none] := by decide
 
+/-- **what a codec swap finds does not depend on how the bytes arrived**: as long as the end of file
+has not been seen, the bytes not yet consumed after any number of polls (what is buffered followed by
+what the transport still delivers) are exactly what the codec leaves of the whole stream after the
+items / decode errors it has yielded — whatever the composition into chunks, wherever `Pending`s and
+I/O errors are placed -/
+theorem unconsumed_chunking_irrelevant {F} (c : Codec F) (hs : Stable c) (script : List Rd) (n : Nat)
+    (he : (pollN c n (rinit script)).2.eof = false) :
+    unconsumed (pollN c n (rinit script)).2 =
+      leftover c (takenBy (pollN c n (rinit script)).1) (streamOf script) := by
+  simpa [unconsumed, rinit] using pollN_rem c hs n (rinit script) he
+
+/-- … so two ways of delivering the same stream, polled until the same number of frames came out,
+leave a new codec the same outputs to come (with `swap_chunking_irrelevant`: the same frames) -/
+theorem swap_same_stream {F G} (c1 : Codec F) (c2 : Codec G) (h1 : Stable c1)
+    (s1 s2 : List Rd) (n1 n2 k : Nat) (hstr : streamOf s1 = streamOf s2)
+    (hm : takenBy (pollN c1 n1 (rinit s1)).1 = takenBy (pollN c1 n2 (rinit s2)).1)
+    (he1 : (pollN c1 n1 (rinit s1)).2.eof = false) (he2 : (pollN c1 n2 (rinit s2)).2.eof = false) :
+    expect c2 k (pollN c1 n1 (rinit s1)).2 = expect c2 k (pollN c1 n2 (rinit s2)).2 := by
+  have u1 := unconsumed_chunking_irrelevant c1 h1 s1 n1 he1
+  have u2 := unconsumed_chunking_irrelevant c1 h1 s2 n2 he2
+  simp only [expect, he1, he2, Bool.false_eq_true, if_false]
+  simp only [unconsumed] at u1 u2
+  rw [u1, u2, hm, hstr]
+
+example : leftover lenCodec 1 [1, 7, 97, 10, 98] = [97, 10, 98] ∧
+    unconsumed (pollN lenCodec 1 (rinit [.data [1], .pending, .data [7, 97], .data [10, 98]])).2 = [1, 7, 97, 10, 98] ∧
+    unconsumed (pollN lenCodec 2 (rinit [.data [1], .pending, .data [7, 97], .data [10, 98]])).2 = [97, 10, 98] ∧
+    takenBy (pollN lenCodec 2 (rinit [.data [1], .pending, .data [7, 97], .data [10, 98]])).1 = 1 := by decide
+
+/-- **bytes handed over in `read_buf`** (`Framed::from_parts` of `FramedParts::with_read_buf`: flags
+empty, whatever the capacity of the buffer; `FramedParts::new` is the case `b = []`): they count as
+the beginning of the stream — the frame outputs are a prefix of the outputs of `b ++ stream` decoded
+at once, the transport events come out as scripted, every poll answers.  (The flags being empty, the
+first poll reads before it decodes: a frame that is complete in `b` comes out after that read, in
+order; see the example.) -/
+theorem handed_over_buffer {F} (c : Codec F) (hs : Stable c) (b : Bytes) (room : Nat)
+    (script : List Rd) (n : Nat) :
+    frames (pollN c n { buf := b, room := room, script := script }).1 <+:
+      whole c n (b ++ streamOf script) ∧
+    events (pollN c n { buf := b, room := room, script := script }).1 <+: eventsOf script ∧
+    Out.spin ∉ (pollN c n { buf := b, room := room, script := script }).1 := by
+  have h := pollN_spec c hs n { buf := b, room := room, script := script } (fun h => by simp at h)
+  refine ⟨?_, ?_, h.2.2.1⟩
+  · simpa [expect] using h.1
+  · simpa [evs] using h.2.1
+
+example : (pollN linesCodec 4 { buf := [97, 10, 98], room := 0, script := [.pending, .data [10]] }).1 =
+    [.pending, .item [97], .item [98], .none] := by decide
+
 end ActixNet.C13
